@@ -2,6 +2,7 @@ package main
 
 import (
 	"fmt"
+	"go/token"
 	"regexp"
 	"strings"
 
@@ -427,6 +428,54 @@ func runC30(c *Ctx) {
 							bad = true
 						}
 					}
+				}
+				// … and never shrinks by more than the selected one while others are untried: a wholesale
+				// clear of the list (the "could not match it, give up" fallback) is only sound if the
+				// selected backend was first looked for by literal equality — it IS an element of the
+				// list, so that search cannot miss. If the only removal compares parsed/normalised
+				// addresses, a backend whose address does not parse is never matched and the fallback
+				// throws away every candidate that was not tried yet.
+				var clears []ssa.Instruction
+				literal := false
+				eachInstr(cl, func(in ssa.Instruction) {
+					st, ok := in.(*ssa.Store)
+					if !ok || cell == nil || st.Addr != cell {
+						return
+					}
+					if isNilConst(st.Val) {
+						clears = append(clears, in)
+						return
+					}
+					if sl, isSl := strip(st.Val).(*ssa.Slice); isSl && sl.High != nil {
+						if k, isK := constInt(sl.High); isK && k == 0 {
+							clears = append(clears, in)
+							return
+						}
+					}
+					g, ns := MustCross(in, func(e Edge, cond ssa.Value, truth bool) bool {
+						bo, isB := cond.(*ssa.BinOp)
+						if !isB || bo.Op != token.EQL || !truth {
+							return false
+						}
+						for _, pair := range [][2]ssa.Value{{bo.X, bo.Y}, {bo.Y, bo.X}} {
+							ex, isEx := strip(pair[0]).(*ssa.Extract)
+							if !isEx || ex.Tuple != ssa.Value(call) || ex.Index != 0 {
+								continue
+							}
+							// the other side is an element of the list as it is, not a computed form of it
+							if !derivesFrom(pair[1], 4, func(x ssa.Value) bool { _, isCall := x.(*ssa.Call); return isCall }) {
+								return true
+							}
+						}
+						return false
+					})
+					if g && ns > 0 {
+						literal = true
+					}
+				})
+				if len(clears) > 0 {
+					c.Check("all-tried", "clear-all-only-after-literal-miss@"+shortName(cl), clears[0], literal,
+						"the candidate list is cleared wholesale when the selected backend was not matched, but no removal looks for it by literal equality: a backend whose address does not parse/normalise is never matched, and the fallback discards the backends that were not tried yet (the attempt fails before every backend failed)")
 				}
 				c.Check("once-per-attempt", "selection-shrinks-candidates@"+shortName(cl), ci, cell != nil && !bad,
 					"a path returns the selected backend without removing anything from the candidate list: if it fails it is selected again, the attempt never ends (e.g. a backend whose address does not parse, such as an unsubstituted \"host:$2\")")
